@@ -500,6 +500,10 @@ pub fn run(thorough: bool) -> Report {
             (vec!["10 PRINT A(A(0))"], vec![10], vec![("Use of undeclared array 'A'.", 10)]),
             (vec!["10 B(1/0) = 1"], vec![10], vec![]),
             (vec!["10 PRINT D(E(1))"], vec![10], vec![("Use of undeclared array 'E'.", 10), ("Use of undeclared array 'D'.", 10)]),
+            // line numbers at the ends of the range are lines like any other
+            (vec!["0 X = X + 1", "10 IF X < 2 THEN 0", "18446744073709551615 PRINT X"], vec![0, 10, 0, 10, 18446744073709551615], vec![("Use of undeclared variable 'X'.", 0)]),
+            (vec!["0 GOSUB 2", "1 END", "2 RETURN"], vec![0, 2, 1], vec![]),
+            (vec!["0 GOSUB 2: X = 1", "1 END", "2 RETURN"], vec![0, 2, 0, 1], vec![]),
             (vec!["10 FOR I=1 TO 3", "20 Y = Q", "30 NEXT I"], vec![10, 20, 30, 20, 30, 20, 30], vec![("Use of undeclared variable 'Q'.", 20), ("Use of undeclared variable 'Q'.", 20), ("Use of undeclared variable 'Q'.", 20)]),
         ];
         let mut acc = Acc::default();
